@@ -172,10 +172,13 @@ class SpanFunc(Family):
             r = {"pts": [T.eval_single(o, p) for p in c["params"]]}
             o.sample_size = c["sample"]
             r["evalpts"] = [list(p) for p in o.evalpts]
+            kw = {"find_span_func": fn} if fn is not None else {}
             if s["kind"] == "curve":
                 r["ders"] = [[list(d) for d in o.derivatives(p[0], order=c["order"])] for p in c["params"]]
+                r["window"] = [[list(q) for q in operations.find_ctrlpts(o, p[0], **kw)] for p in c["params"]]
             elif s["kind"] == "surface":
                 r["ders"] = [[[list(d) for d in row] for row in o.derivatives(p[0], p[1], order=c["order"])] for p in c["params"]]
+                r["window"] = [[[list(q) for q in row] for row in operations.find_ctrlpts(o, p[0], p[1], **kw)] for p in c["params"]]
             return r
         return call(f)
 
@@ -215,7 +218,7 @@ class SpanFunc(Family):
         if "ok" not in b:
             return "spanfunc-fails: find_span_func=find_span_binsearch makes a valid call fail: %s" % (b,)
         s = c["shape"]
-        for key in ("pts", "evalpts", "ders"):
+        for key in ("pts", "evalpts", "ders", "window"):
             if key in a["ok"] and not _same(a["ok"][key], b["ok"][key]):
                 bad = ""
                 if key == "pts":
@@ -431,6 +434,13 @@ class Normalize(Family):
             return "normalize-grid-fails: sample_size=%s is accepted with normalize_kv=True but fails with normalize_kv=False on knot range %s: %s" % (
                 c.get("samples") or c["sample"], c["ab"], b["grid"])
         ga, gb = a["grid"]["ok"], b["grid"]["ok"]
+        req = c.get("samples") or [c["sample"]] * len(ga["sample_size"])
+        n_req = 1
+        for k in req:
+            n_req *= k
+        for nm, g in (("True", ga), ("False", gb)):
+            if g["sample_size"] != req or len(g["evalpts"]) != n_req:
+                return "normalize-grid-count: sample_size=%s requested with normalize_kv=%s, reported %s, %d evaluated points" % (req, nm, g["sample_size"], len(g["evalpts"]))
         if ga["sample_size"] != gb["sample_size"] or len(ga["evalpts"]) != len(gb["evalpts"]):
             return "normalize-grid-size: sample_size=%s gives %s (%d points) with normalize_kv=True and %s (%d points) with False on knot range %s" % (
                 c.get("samples") or c["sample"], ga["sample_size"], len(ga["evalpts"]), gb["sample_size"], len(gb["evalpts"]), c["ab"])
